@@ -9,7 +9,7 @@
 (*   Mode "mixed" : (-simulate) up to MaxArgs arguments of mixed classes, destinations reg/stack/none, with    *)
 (*                  preserved FP, AVX, requested SA register and forced dynamic alignment                      *)
 EXTENDS Naturals, Sequences, FiniteSets, TLC, Json
-CONSTANTS Mode, MaxArgs
+CONSTANTS Mode, MaxArgs, Full
 
 Rep(t, k) == [q \in 1..k |-> t]
 DReg(rt, id, t) == [k |-> "reg", rt |-> rt, id |-> id, off |-> 0, t |-> t]
@@ -42,7 +42,9 @@ PermCases ==
                   : n \in { n \in 1..MaxArgs : n <= Len(cf.srcs) } }
           : cf \in PermConfigs } \cup
   (* all six vectorcall vector registers permuted: nothing non-preserved is free *)
-  { MkCase("x64-win", "vectorcall", Rep("f64", 6), [q \in 1..6 |-> DReg("vec128", f[q], "")], 0, 0, 255, 0, 0) : f \in Inj(6, 0..5) }
+  (* quick tier: identity, the transpositions and the rotations; thorough: all 720 *)
+  { MkCase("x64-win", "vectorcall", Rep("f64", 6), [q \in 1..6 |-> DReg("vec128", f[q], "")], 0, 0, 255, 0, 0)
+      : f \in { f \in Inj(6, 0..5) : Full \/ Cardinality({ q \in 1..6 : f[q] = q - 1 }) >= 4 \/ \E r \in 0..5 : \A q \in 1..6 : f[q] = (q - 1 + r) % 6 } }
 
 (* ---- ext ---- *)
 IntTypes == {"i8", "u8", "i16", "u16", "i32", "u32", "i64", "u64"}
@@ -109,7 +111,7 @@ NextMixed ==
 
 Init == IF Mode = "mixed" THEN InitMixed
         ELSE /\ done = TRUE
-             /\ cs \in (IF Mode = "perm" THEN PermCases ELSE ExtCases)
+             /\ cs \in (IF Mode = "perm" THEN PermCases ELSE IF Mode = "ext" THEN ExtCases ELSE PermCases \cup ExtCases)
 Next == Mode = "mixed" /\ NextMixed
 Spec == Init /\ [][Next]_vars
 
